@@ -189,8 +189,11 @@ def get_atom_lines_from_pdb(
         if tag == 'MODEL ':
             model = int(line[6:])
             nterm_residue = 'next_residue'
+            # the residue that carried the last OXT belongs to the previous model
+            old_residue = None
         if tag == 'TER   ':
             nterm_residue = 'next_residue'
+            old_residue = None
         if tag in tags:
             alt_conf_tag = line[16]
             residue_name = line[12: 16]
